@@ -295,6 +295,17 @@ fn nest_inputs(tier: Tier) -> Vec<String> {
             }
         }
     }
+    // chains of unclosed index/call brackets below the parser's nesting limit (24): k copies of a
+    // unit that opens two brackets and closes none
+    let ks: Vec<usize> = if tier == Tier::Thorough { (1..=12).collect() } else { vec![2, 4, 6, 10] };
+    for k in ks {
+        for unit in ["s[U6[2*2", "a[b(", "f(a["] {
+            if tier != Tier::Thorough && k >= 10 && unit != "s[U6[2*2" {
+                continue;
+            }
+            v.push(format!("let x = {}\n", unit.repeat(k)));
+        }
+    }
     // literal edge values: every month 00..=99 of a timestamp literal x edge days x edge years (the
     // grammar admits any digits), time-of-day/zone suffixes on edge months, and numeric / duration
     // literals around the i64 and f64 limits
@@ -833,6 +844,23 @@ fn input_tags(input: &str) -> String {
     if !input.is_ascii() {
         tags.push("non_ascii");
     }
+    // brackets still open at the end of a line (the grammar has no multi-line brackets outside
+    // blocks, so every one of them makes pest backtrack through the enclosing alternatives)
+    let mut worst = 0i32;
+    for l in input.lines() {
+        let mut open = 0i32;
+        for b in l.bytes() {
+            match b {
+                b'(' | b'[' | b'{' => open += 1,
+                b')' | b']' | b'}' => open -= 1,
+                _ => {}
+            }
+        }
+        worst = worst.max(open);
+    }
+    if worst >= 12 {
+        tags.push("unclosed_brackets_12_or_more");
+    }
     if tags.is_empty() {
         "plain".into()
     } else {
@@ -1100,7 +1128,7 @@ pub fn run(args: &Args) -> ! {
     rep.absorb(acc);
     let seed_names = |v: &[usize]| v.iter().map(|i| gen.seeds[*i].path.trim_start_matches("/repo/").to_string()).collect::<Vec<_>>().join(", ");
     rep.rule = format!(
-        "Exhaustive, every input run by the real varpulis_parser::parse in a child process with a {} ms budget per input: (a) all strings of length <= {} over the alphabet {:?}; (b) for each seed in [{}] (shipped example programs, examples/**/*.vpl, exact duplicates dropped, smallest first): the program itself, every single-token deletion, duplication and substitution by each of the 40 dictionary tokens {:?} (tokens = identifier/number runs, runs of spaces, every other char); for each seed in [{}]: every single-char deletion and every insertion of one alphabet symbol at every char boundary{}; (c) bracket nesting: prefixes {{none, assignment, stream .where(, fn body}} x brackets {{(, [, {{, mixed}} x depth 1..={} x core {{none, 1, a}} x closers {{0, d/2, d}}, and block nesting by indentation: {{if, while, for}} headers nested 1..={} deep x unit {{space, tab, 4 spaces}} x {{with, without}} innermost statement{}; literal edges: timestamp literals @Y-M-D for years {{0000,1970,2024,2262,2263,9999}} x every month 00..=99 x days {{00,01,28,29,31,32,99}} (plus 3 time/zone suffixes on months 00,01,02,12,13) and integer/float/duration literals around the i64/u64/f64 limits with every duration unit. Non-trivial = the parser returned a program with at least one statement, or an error located after offset 0.",
+        "Exhaustive, every input run by the real varpulis_parser::parse in a child process with a {} ms budget per input: (a) all strings of length <= {} over the alphabet {:?}; (b) for each seed in [{}] (shipped example programs, examples/**/*.vpl, exact duplicates dropped, smallest first): the program itself, every single-token deletion, duplication and substitution by each of the 40 dictionary tokens {:?} (tokens = identifier/number runs, runs of spaces, every other char); for each seed in [{}]: every single-char deletion and every insertion of one alphabet symbol at every char boundary{}; (c) bracket nesting: prefixes {{none, assignment, stream .where(, fn body}} x brackets {{(, [, {{, mixed}} x depth 1..={} x core {{none, 1, a}} x closers {{0, d/2, d}}, and block nesting by indentation: {{if, while, for}} headers nested 1..={} deep x unit {{space, tab, 4 spaces}} x {{with, without}} innermost statement{}; unclosed bracket chains: `let x = ` + k copies of a unit opening two brackets and closing none, units {{s[U6[2*2, a[b(, f(a[}}, k in {} (at most 24 open brackets, the parser's own nesting limit); literal edges: timestamp literals @Y-M-D for years {{0000,1970,2024,2262,2263,9999}} x every month 00..=99 x days {{00,01,28,29,31,32,99}} (plus 3 time/zone suffixes on months 00,01,02,12,13) and integer/float/duration literals around the i64/u64/f64 limits with every duration unit. Non-trivial = the parser returned a program with at least one statement, or an error located after offset 0.",
         BUDGET.as_millis(),
         gen.short.max_len,
         ALPHABET,
@@ -1122,7 +1150,8 @@ pub fn run(args: &Args) -> ! {
             )
         } else {
             String::new()
-        }
+        },
+        args.tier.pick("{2,4,6} and, for the first unit, 10", "1..=12")
     );
     rep.assume("error positions are checked against the text the parser reports against — the input after expand_declaration_loops and preprocess_indentation (both public, re-run by the harness) — as fixed in DESIGN §3 C41; `error_positions_beyond_original_input_length` counts errors whose offset exceeds the length of the original input (not judged)");
     rep.assume("only upper bounds are demanded of a location (line <= lines, column <= bytes of that line + 1, offset <= length); the parser's `line 0, column 0, offset 0` for errors without a location is accepted");
